@@ -12,7 +12,7 @@ TECHNIQUE = "runtime monitor: handler/scheduling/clock-write history of the real
 RULE = ("seeded random model programs (5-60 events; trees of handlers scheduling now / rel / abs / prebuilt events with "
         "priorities 1-10, exact time ties on a few hot instants, zero and -0.0 delays, events at and beyond the horizon, "
         "first events from construct_model and (30%) from a method registered with add_initial_method, cancel of pending / executed / own / not-yet-created events, illegal requests: negative, past, NaN, None, str) "
-        "on the float, int and Duration (mixed display units) clocks; non-trivial = program with >=1 time tie with "
+        "on the float, int and Duration (mixed display units) clocks, a quarter of them driven through a bounded run before the final start; non-trivial = program with >=1 time tie with "
         "different priorities, >=1 tie on (time, priority), >=1 cancel of a pending event and >=1 refused request; "
         "distinct = canonical program hash")
 ASSUMPTIONS = ["an illegal scheduling request is refused when any exception is raised and the pending size is unchanged",
@@ -28,7 +28,10 @@ def plan(tier):
 def gen_case(rng, tier, i):
     from vlib.proggen import gen_program
     clock = ["float", "int", "duration"][i % 3]
-    return {"prog": gen_program(rng, clock=clock, n_events=rng.randint(5, 60), bigint=True)}
+    prog = gen_program(rng, clock=clock, n_events=rng.randint(5, 60), bigint=True)
+    # one case in four reaches the end through a bounded run first (the executed events must be the same; the horizon
+    # rules themselves are C03's subject): the bound is a fraction of the run length added to the start time
+    return {"prog": prog, "via_bound": rng.choice([None, None, None, 0.25, 0.5, 0.75]) if i % 4 == 3 else None}
 
 
 def shard_teardown(tier, ctx):
@@ -50,9 +53,18 @@ def run_case(case, ctx):
         if out != "ok":
             ctx.viol(f"initialize-raises:{out}", where)
             return
-        out = h.cmd("start")
+        if case.get("via_bound") is not None:
+            from vlib.refdevs import tnum
+            start_t, length = tnum(prog, prog["rep"]["start"]), tnum(prog, prog["rep"]["length"])
+            b = start_t + (int(case["via_bound"] * length) if prog["clock"] == "int" else case["via_bound"] * length)
+            lit = [float(b), "s"] if prog["clock"] == "duration" else b
+            ctx.count("runs_through_a_bounded_run_first")
+            if h.cmd("run_up_to", lit) != "ok" or not h.wait_quiescent(20):
+                ctx.viol("bounded-run-refused-or-hung", {**where, "bound": lit, "snapshot": h.snapshot()})
+                return
+        out = h.cmd("start") if h.sim.run_state.name != "ENDED" else "ok"
         if out != "ok":
-            ctx.viol(f"start-refused:{out}", where)
+            ctx.viol(f"start-refused:{out}", {**where, "via_bound": case.get("via_bound")})
             return
         if not h.wait_quiescent(20):
             ctx.viol("hang:run-did-not-reach-quiescence", {**where, "snapshot": h.snapshot()})
